@@ -542,18 +542,17 @@ package graphql
 //@ func typeMapReducer
 //@   props C10 C11
 //@   nosafety
-//@   opt assumeframe=true
-//@   assigns nothing
+//@   assigns class:M|string|graphql.Type
 //@   loop 3 ensures err != nil || (visitedloop(4) && calls("typeMapReducer") > atloop(3, calls("typeMapReducer")))
 //@   loop 4 ensures err != nil || calls("typeMapReducer") == atloop(4, calls("typeMapReducer")) + 1
 //@   loop 5 ensures err != nil || (visitedloop(6) && calls("typeMapReducer") > atloop(5, calls("typeMapReducer")))
 //@   loop 6 ensures err != nil || calls("typeMapReducer") == atloop(6, calls("typeMapReducer")) + 1
 //@   loop 7 ensures err != nil || calls("typeMapReducer") == atloop(7, calls("typeMapReducer")) + 1
-//@   at call typeMapReducer#6: assert arg2 == arg.Type
-//@   at call typeMapReducer#7: assert arg2 == field.Type
-//@   at call typeMapReducer#8: assert arg2 == arg.Type
+//@   at call typeMapReducer#5: assert arg2 == arg.Type
+//@   at call typeMapReducer#6: assert arg2 == field.Type
+//@   at call typeMapReducer#7: assert arg2 == arg.Type
+//@   at call typeMapReducer#8: assert arg2 == field.Type
 //@   at call typeMapReducer#9: assert arg2 == field.Type
-//@   at call typeMapReducer#10: assert arg2 == field.Type
 
 //@ func Object.Interfaces
 //@   trusted
